@@ -56,6 +56,14 @@ func c06Universe(cfg c06Config) []string {
 		set[base+"_"+cfg.Service+"_"+cfg.Product+"_us-west-2"] = true
 		set[base+"_"+cfg.Service] = true
 	}
+	// ids that only differ by something a careless normalisation would remove (surrounding white space, case,
+	// a trailing NUL): they are DIFFERENT partitions
+	for _, base := range []string{"a", "a_b", "tenant-1"} {
+		for _, v := range []string{base + " ", " " + base, base + "\n", "\t" + base, strings.ToUpper(base), base + "\x00", base + "/", base + "."} {
+			set[base] = true
+			set[v] = true
+		}
+	}
 	var ids []string
 	for id := range set {
 		ids = append(ids, id)
